@@ -3,6 +3,7 @@ package checks
 
 import (
 	"crypto/md5"
+	"math"
 	"encoding/json"
 	"fmt"
 	"sync/atomic"
@@ -50,3 +51,35 @@ var _ = engine.Guard
 
 // hash128 is a 128-bit digest of a canonical state key (collisions are negligible at 10^8 states).
 func hash128(s string) [16]byte { return md5.Sum([]byte(s)) }
+
+// mixedCollinear returns exactly collinear triples (S, P, E) of mixed magnitude: S has a 40-bit
+// fraction near (1,1), P and E are integers of 10^4..10^6 on the line through S with an odd
+// integer direction v; the coordinate differences S-P, S-E are not representable, so
+// floating-point determinant filters see rounding noise while the exact answer is "collinear".
+// Every triple is verified collinear in rational arithmetic.
+func mixedCollinear() [][6]float64 {
+	var out [][6]float64
+	const two40 = float64(1 << 40)
+	mod := int64(1) << 40
+	for _, v := range [][2]int64{{7, 5}, {1, 3}, {13, -9}, {-5, 11}, {101, 97}, {3, 1}} {
+		for _, tk := range []int64{12345, 15001, 99991, 40003, 7777} {
+			T := tk*mod + 2*tk*7919 + 1 // odd, t = T/2^40 ~ tk
+			a := ((-v[0]*T)%mod + mod) % mod
+			b := ((-v[1]*T)%mod + mod) % mod
+			sx, sy := 1+float64(a)/two40, 1+float64(b)/two40
+			// P = S + v*T/2^40, an integer point by construction
+			px := (float64(a) + float64(v[0])*float64(T%mod)) / two40
+			_ = px
+			pxi := 1 + (a+v[0]*T)/mod
+			pyi := 1 + (b+v[1]*T)/mod
+			for _, j := range []int64{1, 3, 10, 97} {
+				ex, ey := pxi+v[0]*j, pyi+v[1]*j
+				t := [6]float64{sx, sy, float64(pxi), float64(pyi), float64(ex), float64(ey)}
+				if ref.Orient(ref.P2{X: t[0], Y: t[1]}, ref.P2{X: t[2], Y: t[3]}, ref.P2{X: t[4], Y: t[5]}) == 0 && !math.IsInf(t[4], 0) {
+					out = append(out, t)
+				}
+			}
+		}
+	}
+	return out
+}
